@@ -51,8 +51,26 @@ def rendered_kinds(kind, toks):
     """clause heads at parenthesis depth 0 of the rendered statement"""
     out, depth, i, n = [], 0, 0, len(toks)
     seen_source = False
+    head_word = {"select": ("SELECT",), "insert": ("INSERT", "REPLACE"), "update": ("UPDATE",), "delete": ("DELETE",)}[kind]
+    in_with = False
     while i < n:
         t = toks[i]
+        if in_with:
+            # inside the WITH clause (CTE names, SEARCH .. SET .., CYCLE .. SET .. USING ..): wait for the statement head
+            if t == ("C", "("):
+                depth += 1
+            elif t == ("C", ")"):
+                depth -= 1
+            elif depth == 0 and t[0] == "W" and t[1] in head_word:
+                in_with = False
+                continue
+            i += 1
+            continue
+        if depth == 0 and t == ("W", "WITH") and not out:
+            out.append("WITH")
+            in_with = True
+            i += 1
+            continue
         if t == ("C", "("):
             depth += 1
         elif t == ("C", ")"):
@@ -64,7 +82,7 @@ def rendered_kinds(kind, toks):
                 i += 2 if nxt == "JOIN" else 3     # index hint scope: USE INDEX FOR ORDER BY (..)
                 continue
             if kind == "select":
-                if w in ("WITH", "SELECT", "FROM", "WHERE", "HAVING", "WINDOW", "LIMIT", "OFFSET"):
+                if w in ("SELECT", "FROM", "WHERE", "HAVING", "WINDOW", "LIMIT", "OFFSET"):
                     out.append(w)
                 elif w in ("GROUP", "ORDER") and nxt == "BY":
                     out.append(w)
@@ -77,9 +95,7 @@ def rendered_kinds(kind, toks):
                 elif w == "FOR" and nxt in ("UPDATE", "SHARE", "NO", "KEY"):
                     out.append("LOCK")
             elif kind == "insert":
-                if w == "WITH":
-                    out.append("WITH")
-                elif w in ("INSERT", "REPLACE") and not out or (w in ("INSERT", "REPLACE") and out == ["WITH"]):
+                if w in ("INSERT", "REPLACE") and not out or (w in ("INSERT", "REPLACE") and out == ["WITH"]):
                     out.append("INSERT")
                 elif w in ("VALUES", "SELECT", "DEFAULT") and not seen_source:
                     seen_source = True
@@ -89,7 +105,7 @@ def rendered_kinds(kind, toks):
                 elif w == "RETURNING":
                     out.append("RETURNING")
             elif kind == "update":
-                if w in ("WITH", "SET", "FROM", "WHERE", "RETURNING", "LIMIT"):
+                if w in ("SET", "FROM", "WHERE", "RETURNING", "LIMIT"):
                     out.append(w)
                 elif w == "UPDATE" and (not out or out == ["WITH"]):
                     out.append("UPDATE")
@@ -98,7 +114,7 @@ def rendered_kinds(kind, toks):
                 elif w == "ORDER" and nxt == "BY":
                     out.append("ORDER")
             elif kind == "delete":
-                if w in ("WITH", "WHERE", "RETURNING", "LIMIT"):
+                if w in ("WHERE", "RETURNING", "LIMIT"):
                     out.append(w)
                 elif w == "DELETE":
                     out.append("DELETE")
